@@ -121,6 +121,11 @@ func lemma_effectiveEnabled(c *gengoCtx, g Generator, o types.Object) {
 //@   props C06
 //@   requires g != nil && c != nil && c.universe != nil && c.args != nil && o != nil && o.Pkg() != nil && c.universe.Package(o.Pkg().Path()) != nil
 
+// spec_signalsIgnore: the error asks to keep the generator's previous file (ErrIgnore, and not ErrSkip which is tested first).
+func spec_signalsIgnore(e error) bool {
+	return e != nil && !errors.Is(e, ErrSkip) && errors.Is(e, ErrIgnore)
+}
+
 func spec_isAliasGen(g Generator) bool { _, ok := g.(AliasGenerator); return ok }
 
 // spec_dispatchKind: which entry point doGenerate invokes for one package-level type name (0: none): a defined
@@ -175,6 +180,8 @@ func spec_sameCalls(a, b []spec_Call) bool {
 //@   ensures len(spec_calls()) == len(old(spec_calls())) ==> spec_callMark() == old(spec_callMark())
 //@   ensures len(spec_calls()) >= len(old(spec_calls())) && eq(spec_calls()[:len(old(spec_calls()))], old(spec_calls()))
 //@   ensures forall i int :: len(old(spec_calls())) <= i && i < len(spec_calls()) ==> spec_calls()[i].Gen == g
+//@   ensures old(c.ignore) ==> c.ignore
+//@   ensures forall i int :: len(old(spec_calls())) <= i && i < len(spec_calls()) && spec_calls()[i].Kind == spec_GenType && spec_signalsIgnore(spec_calls()[i].Err) ==> c.ignore
 //@   ensures old(c.pkg) == nil ==> result == nil && eq(spec_calls(), old(spec_calls()))
 //@   ensures old(c.pkg) != nil && result == nil ==> spec_sameCalls(spec_calls()[len(old(spec_calls())):], spec_dispatchLog(old(c.universe), old(c.args.Globals), old(c.pkgTags), g, old(c.pkg.Types()), spec_sortedKeys(old(c.pkg.Types())), len(old(c.pkg.Types()))))
 //@   ensures result != nil ==> len(spec_calls()) > len(old(spec_calls())) && spec_lastCall().Err == result && !spec_swallowed(result)
@@ -184,6 +191,7 @@ func spec_sameCalls(a, b []spec_Call) bool {
 //@   loop 2 invariant len(spec_calls()) >= len(old(spec_calls())) && eq(spec_calls()[:len(old(spec_calls()))], old(spec_calls()))
 //@   loop 2 invariant (len(spec_calls()) > len(old(spec_calls())) ==> spec_callMark() == len(spec_fx())) && (len(spec_calls()) == len(old(spec_calls())) ==> spec_callMark() == old(spec_callMark()))
 //@   loop 2 invariant forall i int :: len(old(spec_calls())) <= i && i < len(spec_calls()) ==> spec_calls()[i].Gen == g
+//@   loop 2 invariant (old(c.ignore) ==> c.ignore) && (forall i int :: len(old(spec_calls())) <= i && i < len(spec_calls()) && spec_calls()[i].Kind == spec_GenType && spec_signalsIgnore(spec_calls()[i].Err) ==> c.ignore)
 //@   loop 2 invariant spec_sameCalls(spec_calls()[len(old(spec_calls())):], spec_dispatchLog(old(c.universe), old(c.args.Globals), old(c.pkgTags), g, pkgTypes, xs2, it2))
 //@   loop 2 hint spec_dispatchLog(old(c.universe), old(c.args.Globals), old(c.pkgTags), g, pkgTypes, xs2, it2+1)
 //@   note GenerateType is invoked exactly for the enabled package-level named types of the type table, in ascending name order, aliases only through GenerateAliasType, each at most once (names are map keys); the first non-swallowed error stops the dispatch and is returned unchanged
@@ -210,12 +218,12 @@ func spec_objOK(c *gengoCtx, o types.Object) bool {
 
 //@ func Generator.GenerateType
 //@   calllog 1
-//@   preserves pkg/gengo. pkg/types.Universe. go/ast. go/token. golang.org/x/tools/go/packages. except pkg/gengo.gengoCtx.defers, pkg/gengo.gengoCtx.ignore
+//@   preserves pkg/gengo. pkg/types.Universe. go/ast. go/token. golang.org/x/tools/go/packages. except pkg/gengo.gengoCtx.defers
 //@   note user code: may do anything to the heap EXCEPT to the framework's own (unexported) fields of package gengo other than the Defer list and the ignore flag, and to the loaded syntax trees / file set / module records, which are treated as immutable (preserves); ASSUMED to perform no file-system effect of its own; each invocation is recorded in the ghost call log with the error it returned
 
 //@ func AliasGenerator.GenerateAliasType
 //@   calllog 2
-//@   preserves pkg/gengo. pkg/types.Universe. go/ast. go/token. golang.org/x/tools/go/packages. except pkg/gengo.gengoCtx.defers, pkg/gengo.gengoCtx.ignore
+//@   preserves pkg/gengo. pkg/types.Universe. go/ast. go/token. golang.org/x/tools/go/packages. except pkg/gengo.gengoCtx.defers
 //@   note user code, like Generator.GenerateType
 
 //@ func AliasGenerator.Name
@@ -241,7 +249,8 @@ func spec_lastCall() spec_Call { return spec_calls()[len(spec_calls())-1] }
 //@   ensures spec_lastCall().Kind == spec_GenType && spec_lastCall().Gen == g && spec_lastCall().Obj == x
 //@   ensures spec_lastCall().Err == nil || spec_swallowed(spec_lastCall().Err) ==> result == nil
 //@   ensures spec_lastCall().Err != nil && !spec_swallowed(spec_lastCall().Err) ==> result == spec_lastCall().Err
-//@   ensures spec_lastCall().Err != nil && !errors.Is(spec_lastCall().Err, ErrSkip) && errors.Is(spec_lastCall().Err, ErrIgnore) ==> c.ignore
+//@   ensures c.ignore == (old(c.ignore) || (spec_lastCall().Err != nil && !errors.Is(spec_lastCall().Err, ErrSkip) && errors.Is(spec_lastCall().Err, ErrIgnore)))
+//@   note the ignore mark is sticky: once a type signalled ErrIgnore the generator's previous file is kept, whatever later types return
 
 //@ func gengoCtx.doGenerateAliasType
 //@   props C02 C06
@@ -254,11 +263,12 @@ func spec_lastCall() spec_Call { return spec_calls()[len(spec_calls())-1] }
 //@   ensures len(spec_calls()) == len(old(spec_calls()))+1 && eq(spec_calls()[:len(old(spec_calls()))], old(spec_calls()))
 //@   ensures spec_lastCall().Kind == spec_GenAlias && spec_lastCall().Gen == g && spec_lastCall().Obj == x
 //@   ensures spec_lastCall().Err == nil || spec_swallowed(spec_lastCall().Err) ==> result == nil
+//@   ensures c.ignore == old(c.ignore)
 //@   ensures spec_lastCall().Err != nil && !spec_swallowed(spec_lastCall().Err) ==> result == spec_lastCall().Err
 
 //@ func GeneratorNewer.New
 //@   fresh-result
-//@   preserves pkg/gengo. pkg/types.Universe. go/ast. go/token. golang.org/x/tools/go/packages. except pkg/gengo.gengoCtx.defers, pkg/gengo.gengoCtx.ignore
+//@   preserves pkg/gengo. pkg/types.Universe. go/ast. go/token. golang.org/x/tools/go/packages. except pkg/gengo.gengoCtx.defers
 //@   note user code (custom constructor): unknown effects; ASSUMED to return a generator that shares no per-package state with earlier ones
 
 // spec_isNewer: the generator supplies its own constructor.
